@@ -63,7 +63,7 @@ def bump_small_contract(canary=True):
     """internal::bump for count <= 8 against the spec fold vf_pos_line / vf_pos_col"""
     c = Contract(
         R('count <= 8 && IT_PRE(iter, count)', 'bump-pre', ('C03', 'C06')),
-        A('*iter'),
+        A('*iter, iter->data, iter->byte, iter->line, iter->column'),
         E('ADVANCED(iter, count)', 'BUMP-ADV', ('C06', 'C03')),
         E('iter->line == vf_pos_line(OLD(iter->data), count, OLD(iter->line), ch)', 'BUMP-LINE', ('C06',)),
         E('iter->column == vf_pos_col(OLD(iter->data), count, OLD(iter->column), ch)', 'BUMP-COL', ('C06',)),
@@ -76,7 +76,7 @@ def bump_small_contract(canary=True):
 def itl_contract(canary=True):
     c = Contract(
         R('IT_PRE(iter, count)', 'bump-pre', ('C03', 'C06')),
-        A('*iter'),
+        A('*iter, iter->data, iter->byte, iter->line, iter->column'),
         E('ADVANCED(iter, count)', 'BUMP-ADV', ('C06', 'C03')),
         E('iter->line == OLD(iter->line) && iter->column == OLD(iter->column) + count', 'BUMP-ITL', ('C06',)),
     )
@@ -88,7 +88,7 @@ def itl_contract(canary=True):
 def tnl_contract(canary=True):
     c = Contract(
         R('IT_PRE(iter, count)', 'bump-pre', ('C03', 'C06')),
-        A('*iter'),
+        A('*iter, iter->data, iter->byte, iter->line, iter->column'),
         E('ADVANCED(iter, count)', 'BUMP-ADV', ('C06', 'C03')),
         E('iter->line == OLD(iter->line) + 1 && iter->column == 1', 'BUMP-TNL', ('C06',)),
     )
@@ -118,7 +118,7 @@ def jobs(tier):
     # (b) unbounded: the loop is the fold of the one-byte step (ghost fold with its own index)
     con = Contract(
         R('IT_PRE(iter, count) && g_i == 0 && g_line == iter->line && g_col == iter->column && g_data == iter->data', 'bump-pre'),
-        A('*iter, g_i, g_line, g_col'),
+        A('*iter, iter->data, iter->byte, iter->line, iter->column, g_i, g_line, g_col'),
         E('ADVANCED(iter, count)', 'BUMP-ADV', ('C06', 'C03')),
         E('g_i == count', 'BUMP-FOLD-ALL', ('C06',)),
         E('iter->line == g_line && iter->column == g_col', 'BUMP-FOLD', ('C06',)),
